@@ -134,6 +134,39 @@ def random_scenarios(ctx, n, degen, thorough, salt):
     return out
 
 
+def wide_scenarios(ctx, thorough):
+    """Platforms wider than every port buffer (4 entries) on each level, with more work per unit than
+    units and than buffer entries: > 4 sub-cores per SM with blocks of > 4 warps, > 4 SMs per device with
+    kernels of > 4 blocks, > 4 devices with > 4 kernels.  A step that sends several messages in one cycle
+    meets a full buffer here (partial failure of a multi-send)."""
+    rng = random.Random(ctx.seed * 15485863 + 11)
+    one = lambda: rng.choice([1, 1, 2, 3])
+    out = []
+
+    def add(shape, tr, **kw):
+        sc = {'mode': 'sim', 'shape': shape, 'tr': tr, 'submitAt': [0] * len(tr),
+              'engine': rng.choice(['serial', 'shuffle']), 'eseed': rng.randrange(1 << 30),
+              'iseed': rng.randrange(1 << 30), 'src': 'wide'}
+        sc.update(kw)
+        out.append(sc)
+    nsub, nsm, ndev = rng.randint(5, 9), rng.randint(5, 8), rng.randint(5, 7)
+    # sub-cores per SM beyond the buffer, one block with more warps than sub-cores
+    add([{'sm': 1, 'sub': nsub}], [[[one() for _ in range(nsub + rng.randint(1, 4))]]])
+    # SMs per device beyond the buffer, more blocks than SMs
+    add([{'sm': nsm, 'sub': 1}], [[[one()] for _ in range(nsm + rng.randint(1, 4))]])
+    # devices beyond the buffer, more kernels than devices
+    add([{'sm': 1, 'sub': 1}] * ndev, [[[one()]] for _ in range(ndev + rng.randint(1, 3))])
+    # everything at once, through runner.Runner
+    add([{'sm': 5, 'sub': 6}, {'sm': 6, 'sub': 5}],
+        [[[one() for _ in range(rng.randint(5, 9))] for _ in range(rng.randint(6, 8))] for _ in range(2)], runner=True)
+    for _ in range(8 if thorough else 2):
+        shape = [{'sm': rng.randint(1, 7), 'sub': rng.randint(5, 10)} for _ in range(rng.choice([1, 2, 6]))]
+        tr = [[[one() for _ in range(rng.randint(5, 12))] for _ in range(rng.randint(1, 8))]
+              for _ in range(rng.randint(1, 7 if len(shape) > 4 else 2))]
+        add(shape, tr, freqDrv=rng.choice([1e9, 1.0, 5e8]))
+    return out
+
+
 def parse_scenarios(ctx, n, thorough):
     rng = random.Random(ctx.seed * 104729 + 5)
     out = []
@@ -442,6 +475,9 @@ def model_check(ctx, thorough):
     ctx.cov['coverage_zero_actions'] = zeros
     r = ctx.tlc_expect_ok(['nvidia'], 'MC_NvSim.tla', 'MC_asimpl.cfg', timeout=900)
     ctx.log('MC_asimpl (tree as implemented, traces without empty units): %d distinct states' % r.distinct)
+    r = ctx.tlc_expect_ok(['nvidia'], 'MC_NvSim.tla', 'MC_backpressure.cfg', coverage=True, timeout=900)
+    ctx.log('MC_backpressure (PortCap=1, 3 units on a level: sends meet full buffers): %d distinct states' % r.distinct)
+    ctx.cov['coverage_zero_actions'] = sorted(set(zeros) | set(r.coverage_zero()))
     r = ctx.tlc_expect_ok(['nvidia'], 'MC_NvSim.tla', 'MC_live.cfg', timeout=900)
     ctx.log('MC_live (termination under fairness, Quiet = deadlock): %d distinct states' % r.distinct)
     r = ctx.tlc_expect_ok(['nvidia'], 'MC_NvParse.tla', 'MC_NvParse.cfg', timeout=900)
@@ -452,7 +488,7 @@ def model_check(ctx, thorough):
     r = ctx.tlc_expect_ok(['nvidia'], 'MC_NvTick.tla', 'MC_tick_fixed.cfg', timeout=900)
     ctx.log('MC_tick_fixed (proposed repair of the empty units, all traces): %d distinct states' % r.distinct)
     if thorough:
-        for cfg in ('MC_ragged.cfg', 'MC_intended_big.cfg', 'MC_asimpl_big.cfg'):
+        for cfg in ('MC_ragged.cfg', 'MC_intended_big.cfg', 'MC_asimpl_big.cfg', 'MC_backpressure_big.cfg'):
             r = ctx.tlc_expect_ok(['nvidia'], 'MC_NvSim.tla', cfg, workers=min(vlib.NCPU, 12), timeout=2400)
             ctx.log('%s: %d distinct states' % (cfg, r.distinct))
         for cfg in ('MC_tick_fixed_cap1.cfg', 'MC_tick_fixed_big.cfg', 'MC_tick_asimpl_big.cfg'):
@@ -485,7 +521,8 @@ def run(ctx, selftest=False):
     # 3. seeded random scenarios far beyond the model's bounds
     rnd = random_scenarios(ctx, 500 if thorough else 70, False, thorough, 1)
     rnd_deg = random_scenarios(ctx, 60 if thorough else 10, True, thorough, 2)
-    allsc = tl + rnd + rnd_deg + [cex]
+    wide = wide_scenarios(ctx, thorough)
+    allsc = tl + rnd + rnd_deg + wide + [cex]
     shipped = [{'mode': 'dir', 'dir': SHIPPED, 'a100': False, 'shape': [{'sm': 3, 'sub': 2}, {'sm': 2, 'sub': 4}],
                 'tr': [], 'submitAt': [0], 'engine': 'shuffle', 'eseed': ctx.seed, 'runner': True, 'src': 'shipped'}]
     if thorough:
@@ -495,6 +532,7 @@ def run(ctx, selftest=False):
     degen = [s for s in allsc if degenerate(s['tr'])]
     ctx.sample({'scenario_from_TLC_behaviour': tl[0]})
     ctx.sample({'random_scenario': rnd[0]})
+    ctx.sample({'scenario_wider_than_port_buffers': wide[0]})
     t_good, st1 = run_driver(ctx, drv, good, 'good')
     t_deg, st2 = run_driver(ctx, drv, degen, 'degen')
     t_ship, st0 = run_driver(ctx, drv, shipped, 'shipped')
@@ -526,6 +564,7 @@ def run(ctx, selftest=False):
     ctx.cov.update({'evaluations': len(good) + len(degen) + len(ps), 'distinct_nontrivial': len(nt),
                     'events_validated': st0['events'] + st1['events'] + st2['events'], 'parse_records_validated': st3['pevents'],
                     'scenarios_from_tlc': len(tl), 'scenarios_random': len(rnd) + len(rnd_deg),
+                    'scenarios_wider_than_port_buffers': len(wide),
                     'runs_with_empty_units': len(degen)})
 
     # 5. binding self-tests
